@@ -102,6 +102,12 @@ CHECKS = {
             "That the engine is a product of per-process machines behind a write-through cache is exactly what the projections test; thread-level atomicity is outside the "
             "model. Workloads are schedule-independent by construction (conditions read start inputs, every act writes names of its own) because a process whose parallel "
             "branches race on one variable has no single solo outcome to compare with.", "5 C13"),
+    "C15": ("Lean 4 K1 theorems on the translated return table (child state -> action -> state written on the calling act) and K3 theorems on the abstract call/return "
+            "machine over arbitrary event sequences (a closed call has an ended child and carries the mapped state; closed once; a parent that waits for its calls is "
+            "done only after every child) + monitors on generated parent/child/grandchild runs: child inputs vs call options, call state/outputs/error vs child ending, "
+            "single terminal transition of the call, order of terminal transitions of caller and child, missing model, progress",
+            "That the engine refines the machine is decided by the monitors; in particular the machine's parent ends only through its acts, while the engine lets a "
+            "client error/abort end the caller under a running child (recorded finding).", "5 C15"),
     "C16": ("Lean 4 K3 theorems on the expansion (one group per element, every act of group k carries index k and element k, list order), on the abstract scheduling of "
             "groups (parallel opens all, a sequence opens k+1 only when 0..k are done, never two groups in progress, complete iff all done, empty list completes, "
             "incomplete => some group active) and on hook dispatch (a hook fires once per event of its class, never otherwise; count over any event list), K1 tables "
